@@ -70,6 +70,12 @@ type UploadCase struct {
 	// adversarial ones included). Whatever the library takes "referenced" to mean then, nothing
 	// outside may be touched.
 	Layout string `json:"layout,omitempty"`
+	// NoFinalNL: the control file's last byte is not a line end
+	NoFinalNL bool `json:"noFinalNL,omitempty"`
+	// CtlLink: the control file in the upload directory is itself a symbolic link, to a copy kept in
+	// root/outside/pool - next to which files with the listed names (and other content) lie. The
+	// upload is where the link is, not where it leads.
+	CtlLink bool `json:"ctlLink,omitempty"`
 	// Spelling: how the path given to ParseDscFile / ParseChangesFile spells the control file's
 	// location: 0 clean, 1 ".../src/./name", 2 ".../src/../src/name", 3 "...//src/name",
 	// 4 "../name" given to Parse*File from a working directory reached through a symbolic link
@@ -210,6 +216,8 @@ func genUploadCase(t *rapid.T) UploadCase {
 		c.Layout = rapid.SampledFrom([]string{"sha256-only", "split"}).Draw(t, "layout")
 	}
 	c.Stale = rapid.IntRange(0, 3).Draw(t, "stale") == 0
+	c.CtlLink = c.SelfAt == 0 && rapid.IntRange(0, 7).Draw(t, "ctlLink") == 0
+	c.NoFinalNL = rapid.IntRange(0, 5).Draw(t, "noFinalNL") == 0
 	c.CrossDev = rapid.IntRange(0, 4).Draw(t, "crossDev") == 0
 	if adversarial && rapid.IntRange(0, 2).Draw(t, "fnf") == 0 {
 		c.FilenameF = rapid.SampledFrom([]string{"outside/evil", "d1/evil", "/nonexistent/evil"}).Draw(t, "filenameField")
@@ -421,7 +429,26 @@ func checkUploadCase(c UploadCase, r *Recorder) error {
 	}
 	ctlPath := filepath.Join(root, "src", c.ctlName())
 	ctlText := c.controlText(root)
+	if c.NoFinalNL {
+		ctlText = strings.TrimSuffix(ctlText, "\n") // the file ends inside its last (folded) field
+	}
 	os.WriteFile(ctlPath, []byte(ctlText), 0o644)
+	if c.CtlLink {
+		pool := filepath.Join(root, "outside", "pool")
+		os.MkdirAll(pool, 0o755)
+		os.Remove(ctlPath)
+		os.WriteFile(filepath.Join(pool, c.ctlName()), []byte(ctlText), 0o644)
+		if os.Symlink(filepath.Join(pool, c.ctlName()), ctlPath) != nil {
+			os.WriteFile(ctlPath, []byte(ctlText), 0o644)
+		} else {
+			r.Count("control-file-is-a-symlink", 1)
+		}
+		for _, f := range c.Files {
+			if plainName(f.Name) && f.Name != c.ctlName() {
+				os.WriteFile(filepath.Join(pool, f.Name), []byte("OUTSIDE-SECRET-CONTENT-P-"+f.Name), 0o644)
+			}
+		}
+	}
 	if c.Stale {
 		// leftovers of an earlier upload: same names, same lengths, other bytes, written later than the sources
 		for _, dd := range []string{"d1", "d2"} {
@@ -784,7 +811,7 @@ func upNames(fs []UpFile) []string {
 
 var specC20 = Register(&Spec[UploadCase]{
 	Prop: "C20", Name: "upload",
-	Rule:  "histories of 1..3 operations (Copy/Move into d1|d2, Remove) on one .dsc or .changes handle over a fresh scratch tree root/{src,src/sub,d1,d2,outside}; 0..5 referenced files (sizes 0, 1, 7, 300, 32767..32769, 100000; one plain name in twenty is 200..255 bytes long; one file in ten is listed with a size that is not its real one - the hashes are made up anyway, nothing in the statement makes Copy/Move verify either); a quarter of the uploads list adversarial names ('../outside/victim', '../d1/planted', 'sub/x', absolute, '..', '.', '/', '//', '../', 'sub/../../outside/victim') and/or carry a literal 'Filename:' field pointing elsewhere, and a third of those have no Files field at all (Checksums-Sha256 only) or list the adversarial names in Checksums-Sha256 only; in a quarter of the cases both destinations already hold same-named files of the same length with other bytes (leftovers of an earlier upload); in a fifth of the cases d2 is on another file system (/dev/shm, when there is one), where a Move may fail as a whole but must not half-succeed; in a sixth of the cases the destination of the last operation holds a planted symbolic link to root/outside/victim under the name of a referenced file or of the control file; one listed file in eight is a symbolic link in the source directory to the real file in src/sub (relative or absolute target) or an absolute link to the same-named file that already lives in d1; one destination in six is named as <symlink>/.. with the link leading to a directory inside the destination, and same-named files are planted one level above (where a path cleaned as text would land); one upload in ten lists a name twice (Move / Remove may then fail at the second occurrence - with the control file untouched); in a third of the .changes cases a listed .dsc is a real one whose own Files field names ../outside/victim and sub/inner (nobody asked for the files a listed file lists); in an eighth the control file lists itself (refusing is fine, but then nothing may have moved and the control file is not in the destination); in a quarter (half of the self-listing ones) the handle comes from ParseDsc / ParseChanges(reader, path) with the path spelled src/./x.dsc, src/../src/x.dsc or //src/x.dsc, or from Parse*File of ../x.dsc called in a working directory that was entered through a symbolic link ($PWD logical); an operation whose destination is the directory the upload already lives in (also spelled d1/../src/.) must leave that directory bit-identical whatever it returns; the last operation optionally runs with ONE planted fault at step i in {file 0..n-1, control file}: source deleted, source replaced by a non-empty directory, a non-empty directory squatting on the destination name, destination directory missing or a regular file. Oracle: success (plain names, no fault) => all files and the control file byte-identical in the destination (Move: gone from source; Remove: gone), handle.Filename == dest/base; fault => an error, no regular control file in the destination, for Move/Remove the control file intact at its source; always => root/outside bit-identical, no destination file carries outside content, d1/planted untouched when d1 is not involved. Non-trivial: >= 2 files with a fault at step >= 1, or non-plain names; distinct by case.",
+	Rule:  "histories of 1..3 operations (Copy/Move into d1|d2, Remove) on one .dsc or .changes handle over a fresh scratch tree root/{src,src/sub,d1,d2,outside}; 0..5 referenced files (sizes 0, 1, 7, 300, 32767..32769, 100000; one plain name in twenty is 200..255 bytes long; one file in ten is listed with a size that is not its real one - the hashes are made up anyway, nothing in the statement makes Copy/Move verify either); a quarter of the uploads list adversarial names ('../outside/victim', '../d1/planted', 'sub/x', absolute, '..', '.', '/', '//', '../', 'sub/../../outside/victim') and/or carry a literal 'Filename:' field pointing elsewhere, and a third of those have no Files field at all (Checksums-Sha256 only) or list the adversarial names in Checksums-Sha256 only; in a quarter of the cases both destinations already hold same-named files of the same length with other bytes (leftovers of an earlier upload); in a fifth of the cases d2 is on another file system (/dev/shm, when there is one), where a Move may fail as a whole but must not half-succeed; in a sixth of the cases the destination of the last operation holds a planted symbolic link to root/outside/victim under the name of a referenced file or of the control file; one listed file in eight is a symbolic link in the source directory to the real file in src/sub (relative or absolute target) or an absolute link to the same-named file that already lives in d1; one control file in six ends without a line end (inside its last, folded, field); in an eighth of the cases the control file in the upload directory is itself a symbolic link to a copy in root/outside/pool, next to which same-named files with other content lie (the upload is where the link is); one destination in six is named as <symlink>/.. with the link leading to a directory inside the destination, and same-named files are planted one level above (where a path cleaned as text would land); one upload in ten lists a name twice (Move / Remove may then fail at the second occurrence - with the control file untouched); in a third of the .changes cases a listed .dsc is a real one whose own Files field names ../outside/victim and sub/inner (nobody asked for the files a listed file lists); in an eighth the control file lists itself (refusing is fine, but then nothing may have moved and the control file is not in the destination); in a quarter (half of the self-listing ones) the handle comes from ParseDsc / ParseChanges(reader, path) with the path spelled src/./x.dsc, src/../src/x.dsc or //src/x.dsc, or from Parse*File of ../x.dsc called in a working directory that was entered through a symbolic link ($PWD logical); an operation whose destination is the directory the upload already lives in (also spelled d1/../src/.) must leave that directory bit-identical whatever it returns; the last operation optionally runs with ONE planted fault at step i in {file 0..n-1, control file}: source deleted, source replaced by a non-empty directory, a non-empty directory squatting on the destination name, destination directory missing or a regular file. Oracle: success (plain names, no fault) => all files and the control file byte-identical in the destination (Move: gone from source; Remove: gone), handle.Filename == dest/base; fault => an error, no regular control file in the destination, for Move/Remove the control file intact at its source; always => root/outside bit-identical, no destination file carries outside content, d1/planted untouched when d1 is not involved. Non-trivial: >= 2 files with a fault at step >= 1, or non-plain names; distinct by case.",
 	Check: checkUploadCase,
 })
 
